@@ -300,11 +300,18 @@ def top_level(w):
         a = s0.body[0]
         assert isinstance(a, ast.Assign) and is_self_attr(a.targets[0], 'filename') and isinstance(a.value.value, str)
         c['mp_filename'] = a.value.value
-        assert src_eq([b[1]], "self.simulator = ''")
-        call = b[2].value
+        # the two statements clearing the simulator come before (as found) or after the parameter conversion
+        if src_eq([b[1]], "self.simulator = ''"):
+            c['clears_simulator_first'] = True
+            clear, rest = b[1:3], b[3:]
+        else:
+            c['clears_simulator_first'] = False
+            clear, rest = b[2:4], [b[1]] + b[4:]
+        assert src_eq([clear[0]], "self.simulator = ''")
+        call = clear[1].value
         assert is_self_attr(call.func, 'delete_section') and isinstance(call.args[0].value, str)
         c['simul_section'] = call.args[0].value
-        assert src_eq(b[3:], 'self.convert_AUTOUGH2_parameters_to_TOUGH2(warn, MP)\nself.convert_AUTOUGH2_generators_to_TOUGH2(warn)\nself.convert_short_to_history()')
+        assert src_eq(rest, 'self.convert_AUTOUGH2_parameters_to_TOUGH2(warn, MP)\nself.convert_AUTOUGH2_generators_to_TOUGH2(warn)\nself.convert_short_to_history()')
     except (AssertionError, AttributeError, IndexError):
         raise Refusal('convert_to_TOUGH2 %s: statement list differs from the modelled one' % where(f))
     f = w.method('convert_to_AUTOUGH2')
@@ -694,6 +701,7 @@ def emit(c):
     t = c['top']
     d('mp_filename', 'string', cs(t['mp_filename']))
     d('simul_section', 'string', cs(t['simul_section']))
+    d('t2_clears_simulator_first', 'bool', 'true' if t['clears_simulator_first'] else 'false')
     d('default_simulator', 'string', cs(t['default_simulator']))
     d('default_eos', 'string', cs(t['default_eos']))
     d('dat_suffix', 'string', cs(t['dat_suffix']))
